@@ -53,7 +53,7 @@ func VInv(l *List[int]) {
 
 func VHListStep() {
 	l, pre := VGList()
-	lists.VSeqStep(l, pre, lists.VExt{
+	lists.VSeqStep(l, pre, lists.VExt{Name: "SinglyLinkedList",
 		Append:  l.Append,
 		Prepend: l.Prepend,
 		IndexOf: l.IndexOf,
